@@ -7,7 +7,7 @@ from .. import tast
 from ..family import Family
 from ..gen import TypeGen
 from ..hostile import mutations, junk_pool
-from ..ref import Ref, RefError, Ctx, deep_eq, plain, fingerprint
+from ..ref import Ref, RefError, Ctx, deep_eq, plain, fingerprint, ORJSON_NATIVES, MSGPACK_NATIVES, TOML_NATIVES
 from ..values import Gen
 from . import common
 
@@ -83,6 +83,21 @@ def run_case(seed, tier, rec, st):
         vg = Gen(fam, rng)
         nhost = 12 if tier == "quick" else 30
         facts = type_facts(fam, ref, t)
+        # the same type behind a format mixin: the pre-parsed tree (the format's natives left as objects) is handed to
+        # from_<format>(..., decoder=identity), with and without a call dialect that customises nothing
+        fmt = None
+        if rng.random() < 0.25:
+            fmt = rng.choice(list(FORMATS))
+            fmix, fmeth, fnat, fdnat, fdrop = FORMATS[fmt]
+            fname = tg.fresh("WF")
+            fcfg = {}
+            if rng.random() < 0.6:
+                fcfg["code_generation_options"] = "[ADD_DIALECT_SUPPORT]"
+                fam.exec_src("class EmptyD(Dialect):\n    pass\n")
+            if rng.random() < 0.3:
+                fcfg["lazy_compilation"] = "True"
+            fam.add({"k": "dc", "name": fname, "bases": [], "mixin": fmix, "fields": [{"n": "x", "t": t}], "config": fcfg}, tg.value_maker)
+            WF = fam.get(fname)
         for j in range(3):
             v = vg.value(t, 3)
             try:
@@ -129,11 +144,63 @@ def run_case(seed, tier, rec, st):
                 if fingerprint(d) != snap:
                     rec.violation("input-mutated", {"type": tast.render(t), "input": common.short(d)}, facts)
                 rec.nontrivial((tast.shape_hash(t), repr(snap)[:300]))
+            if fmt:
+                format_tree_decodes(rec, fam, ref, rng, t, v, fmt, fname, WF, "code_generation_options" in fcfg, facts)
             if j == 0:
                 rec.sample({"type": tast.render(t), "valid_input": common.short(d0, 200),
                             "hostile": [common.short(x[1], 120) for x in inputs[1:4]]})
     finally:
         fam.dispose()
+
+
+def _ident(x, **kw):
+    return x
+
+
+FORMATS = {
+    # name: (mixin, decode method, natives kept on encode, natives passed through on decode, null fields dropped)
+    "msgpack": ("DataClassMessagePackMixin", "from_msgpack", MSGPACK_NATIVES, MSGPACK_NATIVES, False),
+    "toml": ("DataClassTOMLMixin", "from_toml", TOML_NATIVES, TOML_NATIVES, True),
+    "orjson": ("DataClassORJSONMixin", "from_json", ORJSON_NATIVES, frozenset(), False),
+}
+
+
+def format_tree_decodes(rec, fam, ref, rng, t, v, fmt, fname, WF, dialect_support, facts):
+    fmix, fmeth, fnat, fdnat, fdrop = FORMATS[fmt]
+    w = WF(v)
+    wt = ("dc", fname)
+    ref.dropped_unrestorable_none = False
+    try:
+        tree = plain(ref.enc(wt, w, Ctx(natives=fdnat, drop_none=fdrop)))
+    except Exception:
+        rec.count("format_tree_ref_undefined")
+        return
+    if ref.dropped_unrestorable_none:
+        rec.count("format_tree_discarded:none_not_representable")
+        return
+    inputs = [("valid", tree)] + [(lab, d) for lab, d, _p, _i in mutations(tree, rng, 3) if isinstance(d, dict)]
+    meth = getattr(WF, fmeth)
+    for label, d in inputs:
+        routes = [(f"{fmt}-tree", lambda: meth(d, decoder=_ident))]
+        if dialect_support:
+            D = fam.module.EmptyD
+            routes.append((f"{fmt}-tree+dialect", lambda: meth(d, decoder=_ident, dialect=D)))
+        observed = []
+        for rname, fn in routes:
+            try:
+                observed.append((rname, ("ok", fn())))
+            except Exception as ex:
+                observed.append((rname, ("raise", ex)))
+        try:
+            exp = ("ok", ref.dec(wt, d, Ctx(dnatives=fdnat)))
+        except RefError as e:
+            exp = ("raise", e)
+        except RecursionError:
+            continue
+        for rname, got in observed:
+            rec.evaluation()
+            rec.count("format_tree_decodes")
+            judge(rec, fam, ref, wt, rname, label, d, exp, got, dict(facts, format=fmt), Ctx(dnatives=fdnat))
 
 
 def type_facts(fam, ref, t):
@@ -150,13 +217,13 @@ def type_facts(fam, ref, t):
 QUIRKS = ("F02", "F24")
 
 
-def explained_by(fam, t, d, got):
+def explained_by(fam, t, d, got, ctx=None):
     """which recorded finding (if any) explains the observation: re-run the reference
     with exactly that one mechanism enabled and compare."""
     for q in QUIRKS:
         qref = Ref(fam, quirks=(q,))
         try:
-            e = ("ok", qref.dec(t, d, Ctx()))
+            e = ("ok", qref.dec(t, d, ctx or Ctx()))
         except RefError as ex:
             e = ("raise", ex)
         if e[0] != got[0]:
@@ -166,9 +233,9 @@ def explained_by(fam, t, d, got):
     return None
 
 
-def judge(rec, fam, ref, t, rname, label, d, exp, got, facts):
+def judge(rec, fam, ref, t, rname, label, d, exp, got, facts, ctx=None):
     if (got[0], exp[0]) != ("raise", "raise") and not (got[0] == exp[0] == "ok" and deep_eq(got[1], exp[1], key_order=False)):
-        facts = dict(facts, explained_by=explained_by(fam, t, d, got))
+        facts = dict(facts, explained_by=explained_by(fam, t, d, got, ctx))
     detail = lambda **kw: dict({"type": tast.render(t), "route": rname, "mutation": label, "input": common.short(d, 400),
                                 "family": fam.to_json()}, **kw)
     if got[0] == "ok" and exp[0] == "ok":
